@@ -53,6 +53,8 @@ import M4riProofs.GenTieAlg
 import M4riProofs.GenTieDuff
 import M4riProofs.GenTieEch
 import M4riProofs.GenTieTop
+import M4riProofs.GenTieEch2
+import M4riProofs.GenTieMax
 namespace M4ri.Props.C02
 open M4ri M4ri.BMat
 
@@ -278,3 +280,11 @@ end M4ri.Props.C02
 #check @M4ri.GenTieTop.c_echelonize_ple
 #check @M4ri.GenTieTop.c_echelonize_pluq_russian
 #check @M4ri.GenTieTop.echelonizePluq_congr
+
+/-! ### `mzd_echelonize_pluq` OVER THE CLOSED GENERATED `_mzd_trsm_upper_left` (GenTieEch2.lean): in all three `r mod 64` cases (window; local copies through
+    `mzd_submatrix`) and for both values of `full` the generated function with the triangular solve bound to the closed generated recursion (any depth)
+    returns what it returns with the lifted substitution form — hence rank A and the RREF, end to end (`c_echelonize_pluq_closed`);
+    GenTieMax.lean: the same over `cPluqMax` (see C03) -/
+#check @M4ri.GenTieEch2.echelonizePluq_closed
+#check @M4ri.GenTieEch2.c_echelonize_pluq_closed
+#check @M4ri.GenTieMax.c_echelonize_pluq_max
